@@ -347,6 +347,13 @@ func RunSession(sc *Script) *Outcome {
 	})
 
 	out.Entries = len(entries)
+	if d := os.Getenv("VERIF_C16_DUMP"); d != "" {
+		for i := range entries {
+			if strings.Contains(entries[i].Msg, d) {
+				fmt.Fprintf(os.Stderr, "DUMP %s", entries[i].Formatted[0])
+			}
+		}
+	}
 	sites := map[string]bool{}
 	for i := range entries {
 		e := &entries[i]
